@@ -3,9 +3,11 @@
    The theorems are about the hand model Model/ObjectFile.v (tie H; correspondence with
    ppci/binutils/objectfile.py, archive.py, utils/binary_txt.py, common.make_num is re-checked on
    every run by tools/props/c14.py) and the exported architecture table Gen/objarch.v.
-   Scope: objects WITHOUT debug info (debug info is covered by validation only, see c14.py);
-   the JSON text layer (json.dump / json.load) is trusted to be the identity on [json]. *)
-From PV Require Import Lib.Py Lib.Json Gen.objarch Model.ObjectFile Proofs.C14_objfile.
+   First part: objects without debug info; second part (c14_debug_*, c14_roundtrip_full, ...):
+   debug information (Model/DebugInfo.v, Model/ObjectFileFull.v, class table Gen/dbgclasses.v).
+   The JSON text layer (json.dump / json.load) is trusted to be the identity on [json]. *)
+From PV Require Import Lib.Py Lib.Json Gen.objarch Gen.dbgclasses Model.ObjectFile Model.DebugInfo
+  Model.ObjectFileFull Proofs.C14_objfile Proofs.C14_debug Proofs.C14_full Proofs.C14_classes.
 From Coq Require Import String.
 Open Scope string_scope.
 Open Scope Z_scope.
@@ -62,4 +64,95 @@ Definition c14_example : objectfile :=
 Example c14_nonvacuous :
   wf_objb c14_example = true /\ deserialize (serialize c14_example) = Ok c14_example
   /\ archive_load (archive_save [c14_example; c14_example]) = Ok [c14_example; c14_example].
+Proof. vm_compute. repeat split. Qed.
+
+(* ------------------------------------------------------------------ debug information *)
+
+(* debuginfo.serialize / deserialize (repaired loader): every DebugInfo whose referenced types
+   are registered comes back identical — locations, functions (begin / end / parameters / local
+   variables with stack slots incl. size), the type graph (base with encoding, struct with fields,
+   array, pointer; arbitrary cycles and registration orders; ids assigned in first-use order),
+   global variables *)
+Theorem c14_debug_roundtrip : forall d, wf_dbg d -> dbg_deserialize (dbg_serialize d) = Ok d.
+Proof. exact dbg_roundtrip. Qed.
+Print Assumptions c14_debug_roundtrip.
+
+(* the loader before fixes/C14-debug-recursive-pointer.diff: a well-formed DebugInfo that saves
+   but cannot be loaded (pointer type registered before the struct whose field uses it); the
+   repaired loader reads it back *)
+Theorem c14_debug_pointer_first_refuted :
+  exists d, wf_dbg d /\ dbg_deserialize_v1 (dbg_serialize d) = Internal KeyError
+            /\ dbg_deserialize (dbg_serialize d) = Ok d.
+Proof. exists ptr_first. exact ptr_first_fails. Qed.
+Print Assumptions c14_debug_pointer_first_refuted.
+
+(* ... and the unrepaired loader is correct outside that region: whenever its lazy type
+   construction goes through (decidable: v1_loadable) the debug info comes back identical, and
+   whatever it loads, the repaired loader loads identically *)
+Theorem c14_debug_roundtrip_v1 : forall d,
+  wf_dbg d -> v1_loadable d = true -> dbg_deserialize_v1 (dbg_serialize d) = Ok d.
+Proof. exact dbg_roundtrip_v1. Qed.
+Print Assumptions c14_debug_roundtrip_v1.
+
+Theorem c14_debug_v1_refines : forall x d, dbg_deserialize_v1 x = Ok d -> dbg_deserialize x = Ok d.
+Proof. exact v1_refines. Qed.
+Print Assumptions c14_debug_v1_refines.
+
+(* every debug type / address / record class of debuginfo.py (introspected on every run) has a
+   constructor in the model, and conversely: a new class without serializer breaks this file *)
+Theorem c14_debug_classes_covered :
+  (forall c, In c dbg_type_classes -> exists t, dtype_class t = c)
+  /\ (forall c, In c dbg_addr_classes -> exists a, daddr_class a = c)
+  /\ (forall c, In c dbg_record_classes -> In c record_classes).
+Proof. exact classes_covered. Qed.
+Print Assumptions c14_debug_classes_covered.
+
+Theorem c14_debug_classes_exact :
+  (forall t, In (dtype_class t) dbg_type_classes)
+  /\ (forall a, In (daddr_class a) dbg_addr_classes)
+  /\ (forall c, In c record_classes -> In c dbg_record_classes).
+Proof. exact classes_exact. Qed.
+Print Assumptions c14_debug_classes_exact.
+
+(* objects WITH debug info: full record equality *)
+Theorem c14_roundtrip_full : forall x, wf_full x -> deserialize_full (serialize_full x) = Ok x.
+Proof. exact full_roundtrip. Qed.
+Print Assumptions c14_roundtrip_full.
+
+Theorem c14_roundtrip_full_v1 : forall x,
+  wf_full x -> (forall d, of_debug x = Some d -> v1_loadable d = true) ->
+  deserialize_full_v1 (serialize_full x) = Ok x.
+Proof. exact full_roundtrip_v1. Qed.
+Print Assumptions c14_roundtrip_full_v1.
+
+Theorem c14_archive_roundtrip_full : forall objs,
+  Forall wf_full objs -> archive_load_full (archive_save_full objs) = Ok objs.
+Proof. exact archive_full_roundtrip. Qed.
+Print Assumptions c14_archive_roundtrip_full.
+
+Theorem c14_serialize_full_injective : forall x y,
+  wf_full x -> wf_full y -> serialize_full x = serialize_full y -> x = y.
+Proof. exact full_serialize_injective. Qed.
+Print Assumptions c14_serialize_full_injective.
+
+(* the full serializer extends the one of the first part *)
+Theorem c14_serialize_full_none : forall o, serialize_full (mkFull o None) = serialize o.
+Proof. exact serialize_full_none. Qed.
+Print Assumptions c14_serialize_full_none.
+
+(* inhabited: every record kind, a struct <-> pointer cycle, forward references (ids differ from
+   positions), stack slot of size 4, encoding 8 *)
+Definition c14_debug_example : debuginfo :=
+  let l := mkLoc (Some "f.c") 3 4 5 in
+  mkDbg [mkDLoc l (AFixed 3); mkDLoc (mkLoc None 1 1 1) AUnknown]
+        [mkFunc "f" l 0 [mkParam "a" 0; mkParam "p" 2] (AFixed 1) (AFixed 2)
+                [mkVar "l" 4 l (AFprel (-8) 4)]]
+        [TBase "int" 4 1; TStruct [mkField "c" 3 0; mkField "next" 2 4]; TPointer 1;
+         TArray 4 7; TBase "void*" 8 8]
+        [mkVar "g" 3 l (AFixed 1); mkVar "u" 2 (mkLoc None 1 1 1) AUnknown].
+Example c14_debug_nonvacuous :
+  wf_dbgb c14_debug_example = true /\ v1_loadable c14_debug_example = true
+  /\ type_ids c14_debug_example = [0; 1; 3; 2; 4]%nat
+  /\ deserialize_full (serialize_full (mkFull c14_example (Some c14_debug_example)))
+     = Ok (mkFull c14_example (Some c14_debug_example)).
 Proof. vm_compute. repeat split. Qed.
